@@ -81,7 +81,7 @@ CFG = {
     "corr_name": "Batcher.step? accepts the observed boundary trace and computes the same seq/status/ForEach ids/commit ids",
     "trusted_base": [
         "Go runtime semantics of sync.Mutex, sync.Cond, channels (modelled, not verified); one model op per critical section of batch.go",
-        "time.Now() read twice inside one critical section (reset, updateStatus) is modelled as one logical tick",
+        "the two time.Now() reads of one Add/heartbeat critical section (reset, updateStatus) are two logical times t0, now of the op",
         "trace points b.add/b.seal/b.commit/b.hb/b.stop are inside the lock that serialises the step; OutFn entry/exit is logged by the harness outside any lock and only touches its own batch in the model",
     ],
     "assumptions": ["heartbeat period (100 ms) and scheduler slack are real-time assumptions; staleness is proved in logical ticks and observed in heartbeat ticks (flushed and committed within 5 heartbeat iterations after the last Add)",
